@@ -2,9 +2,122 @@
   Proofs: round trips of the fixed-layout packets.
 -/
 import Rtcp.Spec.All
+import Rtcp.Proofs.RoundTripAux
 
 namespace Rtcp.Proofs
-open Rtcp Rtcp.Impl Rtcp.Spec
+open Rtcp Rtcp.Impl Rtcp.Spec Rtcp.Proofs.Read Rtcp.Proofs.RT
+
+theorem rbImage_len (b : ReportBlockBuilder) : (rbImage b).length = 24 := by
+  simp [rbImage]
+
+theorem rbImages_len (rbs : List ReportBlockBuilder) :
+    ((rbs.map rbImage).flatten).length = 24 * rbs.length := by
+  induction rbs with
+  | nil => rfl
+  | cons rb rest ih => simp [rbImage_len, ih]; omega
+
+theorem be32s_len (xs : List UInt32) : ((xs.map be32).flatten).length = 4 * xs.length := by
+  induction xs with
+  | nil => rfl
+  | cons x rest ih => simp [ih]; omega
+
+theorem trailer_head (p : UInt8) (h : 2 ≤ p.toNat) : ∃ t, trailer p = 0 :: t := by
+  have hp : p ≠ 0 := by intro h0; subst h0; simp at h
+  unfold trailer
+  rw [if_neg hp]
+  obtain ⟨k, hk⟩ : ∃ k, p.toNat - 1 = k + 1 := ⟨p.toNat - 2, by omega⟩
+  rw [hk, List.replicate_succ]
+  exact ⟨_, rfl⟩
+
+theorem getPaddingOf_getD (p : UInt8) : ((getPaddingOf p).getD 0).toNat = p.toNat := by
+  unfold getPaddingOf
+  by_cases h : p = 0 <;> simp [h]
+
+theorem flatten_len_mod4 (ls : List Bytes) (h : ∀ l ∈ ls, l.length % 4 = 0) :
+    ls.flatten.length % 4 = 0 := by
+  induction ls with
+  | nil => rfl
+  | cons l ls ih =>
+    have h1 := h l (by simp)
+    have h2 := ih (fun x hx => h x (by simp [hx]))
+    simp only [List.flatten_cons, List.length_append]
+    omega
+
+theorem fciImage_len_mod4 (f : FciB) : (fciImage f).length % 4 = 0 := by
+  cases f with
+  | nack b =>
+    apply flatten_len_mod4
+    intro l hl
+    simp only [List.mem_map] at hl
+    obtain ⟨w, _, rfl⟩ := hl
+    simp [nackWordImage]
+  | fir b =>
+    apply flatten_len_mod4
+    intro l hl
+    simp only [List.mem_map] at hl
+    obtain ⟨w, _, rfl⟩ := hl
+    simp [firEntryImage]
+  | sli b =>
+    apply flatten_len_mod4
+    intro l hl
+    simp only [List.mem_map] at hl
+    obtain ⟨w, _, rfl⟩ := hl
+    simp [sliEntryImage]
+  | rpsi b =>
+    have h1 := pad4_mod (2 + b.nativeBitString.length)
+    have h2 := le_pad4 (2 + b.nativeBitString.length)
+    simp only [fciImage, rpsiImage]
+    cases hl : b.nativeBitString.getLast? with
+    | none =>
+      have : b.nativeBitString = [] := List.getLast?_eq_none_iff.mp hl
+      simp [this] at h1 h2 ⊢
+      omega
+    | some l =>
+      have : b.nativeBitString ≠ [] := by
+        intro h0; rw [h0] at hl; simp at hl
+      have : 0 < b.nativeBitString.length := List.length_pos_iff.mpr this
+      simp
+      omega
+  | pli => rfl
+
+theorem unknown_parse_packet (pt : UInt8) (c : Nat) (p : UInt8) (body : Bytes) (hf : Fits p body) :
+    Unknown.parse (packet pt c p body) = .ok (packet pt c p body) := by
+  have h4 := packet_len4 pt c p body
+  have hv : ((packet pt c p body).getD 0 0 >>> 6 != 2) = false := by
+    rw [bne2, shr6]
+    have := version_packet pt c p body
+    unfold version at this
+    rw [this]; rfl
+  simp only [Unknown.parse, if_neg (show ¬ (packet pt c p body).length < 4 by omega),
+    parseVersion_ok _ (show 1 ≤ (packet pt c p body).length by omega), R.ok_bind, hv,
+    parseLength_ok _ h4, lengthField_packet pt c p body hf.hpad hf.hbody hf.hsize,
+    Nat.lt_irrefl, gt_iff_lt, if_false, Bool.false_eq_true]
+  rfl
+
+theorem packet_parse_unknown (pt : UInt8) (c : Nat) (p : UInt8) (body : Bytes) (hf : Fits p body)
+    (hk : kindOfType pt = none) :
+    Packet.parse (packet pt c p body) = .ok (.unknown (packet pt c p body)) := by
+  have h4 := packet_len4 pt c p body
+  have hne : pt ≠ 204 ∧ pt ≠ 203 ∧ pt ≠ 201 ∧ pt ≠ 202 ∧ pt ≠ 200 ∧ pt ≠ 206 ∧ pt ≠ 205 := by
+    unfold kindOfType at hk
+    refine ⟨?_, ?_, ?_, ?_, ?_, ?_, ?_⟩ <;> (intro h0; subst h0; simp at hk)
+  obtain ⟨h1, h2, h3, h4', h5, h6, h7⟩ := hne
+  simp only [Packet.parse, if_neg (show ¬ (packet pt c p body).length < 4 by omega),
+    parsePacketType_ok _ (show 2 ≤ (packet pt c p body).length by omega), ptype_packet, R.ok_bind,
+    beq_iff_eq, h1, h2, h3, h4', h5, h6, h7, if_false, unknown_parse_packet pt c p body hf, R.map_ok]
+
+theorem rb_cumulativeLost {ε : Type} (b : ReportBlockBuilder) (h : b.cumulativeLost.toNat < 16777216) :
+    ((do
+      let x ← (fromBe32 ([b.fractionLost] ++ (be32 b.cumulativeLost).drop 1) : R ε UInt32)
+      pure (x.toNat % 16777216).toUInt32) : R ε UInt32) = .ok b.cumulativeLost := by
+  have hf := b.fractionLost.toNat_lt
+  simp only [be32, fromBe32, List.drop_succ_cons, List.drop_zero, List.cons_append, List.nil_append,
+    R.ok_bind, R.pure_eq]
+  congr 1
+  apply UInt32.toNat_inj.mp
+  rw [toUInt8_toNat_lt (by omega), toUInt8_toNat_lt (by omega), toUInt8_toNat_lt (by omega)]
+  simp only [Nat.toUInt32, UInt32.toNat_ofNat']
+  omega
 
 /-- C02: all seven block fields over their full ranges (24-bit cumulative loss) -/
 theorem rb_roundtrip {ε : Type} (b : ReportBlockBuilder) (h : rbRules b = []) :
@@ -17,7 +130,44 @@ theorem rb_roundtrip {ε : Type} (b : ReportBlockBuilder) (h : rbRules b = []) :
     (ReportBlock.lastSenderReportTimestamp (rbImage b) : R ε UInt32) = .ok b.lastSenderReportTimestamp ∧
     (ReportBlock.delaySinceLastSenderReportTimestamp (rbImage b) : R ε UInt32)
       = .ok b.delaySinceLastSenderReportTimestamp := by
-  sorry
+  have hc : b.cumulativeLost.toNat < 16777216 := by
+    unfold rbRules at h
+    split at h
+    · cases h
+    · omega
+  refine ⟨?_, ?_, ?_, ?_, ?_, ?_, ?_, ?_⟩
+  · simp [ReportBlock.parse, rbImage_len]
+  · have e : (slice (rbImage b) 0 4 : R ε Bytes) = .ok (be32 b.ssrc) :=
+      slice_decomp [] _ _ (by simp [rbImage]; rfl) rfl rfl
+    simp only [ReportBlock.ssrc, e, R.ok_bind, fromBe32_be32]
+  · unfold ReportBlock.fractionLost
+    exact idx_decomp (be32 b.ssrc) _ _ (by simp [rbImage]; rfl) rfl
+  · have e : (slice (rbImage b) 4 8 : R ε Bytes)
+        = .ok ([b.fractionLost] ++ (be32 b.cumulativeLost).drop 1) :=
+      slice_decomp (be32 b.ssrc) _ _ (by simp [rbImage]; rfl) rfl (by simp [be32])
+    simp only [ReportBlock.cumulativeLost, e, R.ok_bind]
+    exact rb_cumulativeLost b hc
+  · have e : (slice (rbImage b) 8 12 : R ε Bytes) = .ok (be32 b.extendedSequenceNumber) :=
+      slice_decomp (be32 b.ssrc ++ [b.fractionLost] ++ (be32 b.cumulativeLost).drop 1) _ _
+        (by simp [rbImage]; rfl) (by simp [be32]) rfl
+    simp only [ReportBlock.extendedSequenceNumber, e, R.ok_bind, fromBe32_be32]
+  · have e : (slice (rbImage b) 12 16 : R ε Bytes) = .ok (be32 b.interarrivalJitter) :=
+      slice_decomp (be32 b.ssrc ++ [b.fractionLost] ++ (be32 b.cumulativeLost).drop 1
+          ++ be32 b.extendedSequenceNumber) _ _
+        (by simp [rbImage]; rfl) (by simp [be32]) rfl
+    simp only [ReportBlock.interarrivalJitter, e, R.ok_bind, fromBe32_be32]
+  · have e : (slice (rbImage b) 16 20 : R ε Bytes) = .ok (be32 b.lastSenderReportTimestamp) :=
+      slice_decomp (be32 b.ssrc ++ [b.fractionLost] ++ (be32 b.cumulativeLost).drop 1
+          ++ be32 b.extendedSequenceNumber ++ be32 b.interarrivalJitter) _ _
+        (by simp [rbImage]; rfl) (by simp [be32]) rfl
+    simp only [ReportBlock.lastSenderReportTimestamp, e, R.ok_bind, fromBe32_be32]
+  · have e : (slice (rbImage b) 20 24 : R ε Bytes)
+        = .ok (be32 b.delaySinceLastSenderReportTimestamp) :=
+      slice_decomp (be32 b.ssrc ++ [b.fractionLost] ++ (be32 b.cumulativeLost).drop 1
+          ++ be32 b.extendedSequenceNumber ++ be32 b.interarrivalJitter
+          ++ be32 b.lastSenderReportTimestamp) _ []
+        (by simp [rbImage]) (by simp [be32]) rfl
+    simp only [ReportBlock.delaySinceLastSenderReportTimestamp, e, R.ok_bind, fromBe32_be32]
 
 /-- C02: sender report -/
 theorem sr_roundtrip {ε : Type} (b : SrBuilder) (h : srRules b = []) :
@@ -30,7 +180,69 @@ theorem sr_roundtrip {ε : Type} (b : SrBuilder) (h : srRules b = []) :
     (Sr.padding (srImage b) : R ε (Option UInt8)) = .ok (getPaddingOf b.padding) ∧
     (Sr.nReports (srImage b) : R ε UInt8) = .ok b.reportBlocks.length.toUInt8 ∧
     (Sr.reportBlocks (srImage b) : R ε (List Bytes)) = .ok (b.reportBlocks.map rbImage) := by
-  sorry
+  have hn : b.reportBlocks.length ≤ 31 := by
+    unfold srRules at h
+    by_cases hh : b.reportBlocks.length > 31
+    · simp [hh] at h
+    · omega
+  have hp : b.padding.toNat % 4 = 0 := by
+    unfold srRules padRule at h
+    by_cases hh : b.padding.toNat % 4 = 0
+    · exact hh
+    · simp [hh] at h
+  have hpl := b.padding.toNat_lt
+  generalize hbody : be32 b.ssrc ++ be64 b.ntp ++ be32 b.rtp ++ be32 b.packetCount ++ be32 b.octetCount
+      ++ (b.reportBlocks.map rbImage).flatten = body
+  have himg : srImage b = packet 200 b.reportBlocks.length b.padding body := by
+    rw [← hbody]; rfl
+  have hbl : body.length = 24 + 24 * b.reportBlocks.length := by
+    rw [← hbody]; simp only [List.length_append, be32_length, be64_length, rbImages_len]
+  have hf : Fits b.padding body := ⟨hp, by omega, by omega⟩
+  have hcnt : (b.reportBlocks.length % 32).toUInt8.toNat = b.reportBlocks.length := by
+    rw [toUInt8_toNat_lt (by omega)]; omega
+  obtain ⟨hdr, hhl, hdec⟩ := packet_decomp 200 b.reportBlocks.length b.padding body
+  rw [himg]
+  refine ⟨?_, ?_, ?_, ?_, ?_, ?_, ?_, ?_, ?_⟩
+  · simp only [Sr.parse, checkPacket_packet 28 200 _ _ _ (by omega) hf (by omega), R.ok_bind,
+      parseCount_packet, hcnt, packet_length]
+    rw [if_neg (by omega)]; rfl
+  · have e : (slice (packet 200 b.reportBlocks.length b.padding body) 4 8 : R ε Bytes)
+        = .ok (be32 b.ssrc) :=
+      slice_decomp hdr _ _ (by rw [hdec, ← hbody]; simp only [List.append_assoc]; rfl) (by omega) rfl
+    simp only [Sr.ssrc, parseSsrc, e, R.ok_bind, fromBe32_be32]
+  · have e : (slice (packet 200 b.reportBlocks.length b.padding body) 8 16 : R ε Bytes)
+        = .ok (be64 b.ntp) :=
+      slice_decomp (hdr ++ be32 b.ssrc) _ _
+        (by rw [hdec, ← hbody]; simp only [List.append_assoc]; rfl) (by simp; omega) (by simp)
+    simp only [Sr.ntp, e, R.ok_bind, fromBe64_be64]
+  · have e : (slice (packet 200 b.reportBlocks.length b.padding body) 16 20 : R ε Bytes)
+        = .ok (be32 b.rtp) :=
+      slice_decomp (hdr ++ be32 b.ssrc ++ be64 b.ntp) _ _
+        (by rw [hdec, ← hbody]; simp only [List.append_assoc]; rfl) (by simp; omega) (by simp)
+    simp only [Sr.rtp, e, R.ok_bind, fromBe32_be32]
+  · have e : (slice (packet 200 b.reportBlocks.length b.padding body) 20 24 : R ε Bytes)
+        = .ok (be32 b.packetCount) :=
+      slice_decomp (hdr ++ be32 b.ssrc ++ be64 b.ntp ++ be32 b.rtp) _ _
+        (by rw [hdec, ← hbody]; simp only [List.append_assoc]; rfl) (by simp; omega) (by simp)
+    simp only [Sr.packetCount, e, R.ok_bind, fromBe32_be32]
+  · have e : (slice (packet 200 b.reportBlocks.length b.padding body) 24 28 : R ε Bytes)
+        = .ok (be32 b.octetCount) :=
+      slice_decomp (hdr ++ be32 b.ssrc ++ be64 b.ntp ++ be32 b.rtp ++ be32 b.packetCount) _ _
+        (by rw [hdec, ← hbody]; simp only [List.append_assoc]; rfl) (by simp; omega) (by simp)
+    simp only [Sr.octetCount, e, R.ok_bind, fromBe32_be32]
+  · exact parsePadding_packet _ _ _ _ hf
+  · simp only [Sr.nReports, hCount_packet]
+    congr 2; omega
+  · have e : (slice (packet 200 b.reportBlocks.length b.padding body) 28
+          (28 + b.reportBlocks.length * 24) : R ε Bytes)
+        = .ok (b.reportBlocks.map rbImage).flatten :=
+      slice_decomp (hdr ++ be32 b.ssrc ++ be64 b.ntp ++ be32 b.rtp ++ be32 b.packetCount
+          ++ be32 b.octetCount) _ _
+        (by rw [hdec, ← hbody]; simp only [List.append_assoc]; rfl) (by simp; omega)
+        (by rw [rbImages_len]; omega)
+    simp only [Sr.reportBlocks, reportBlocksAt, hCount_packet, R.ok_bind, hcnt, e]
+    rw [chunksExact_flatten 24 (by omega) _ (by simp [rbImage_len])]
+    exact unwrapBlocks_ok _ (by simp [rbImage_len])
 
 /-- C02: receiver report -/
 theorem rr_roundtrip {ε : Type} (b : RrBuilder) (h : rrRules b = []) :
@@ -39,7 +251,47 @@ theorem rr_roundtrip {ε : Type} (b : RrBuilder) (h : rrRules b = []) :
     (Rr.padding (rrImage b) : R ε (Option UInt8)) = .ok (getPaddingOf b.padding) ∧
     (Rr.nReports (rrImage b) : R ε UInt8) = .ok b.reportBlocks.length.toUInt8 ∧
     (Rr.reportBlocks (rrImage b) : R ε (List Bytes)) = .ok (b.reportBlocks.map rbImage) := by
-  sorry
+  have hn : b.reportBlocks.length ≤ 31 := by
+    unfold rrRules at h
+    by_cases hh : b.reportBlocks.length > 31
+    · simp [hh] at h
+    · omega
+  have hp : b.padding.toNat % 4 = 0 := by
+    unfold rrRules padRule at h
+    by_cases hh : b.padding.toNat % 4 = 0
+    · exact hh
+    · simp [hh] at h
+  have hpl := b.padding.toNat_lt
+  generalize hbody : be32 b.ssrc ++ (b.reportBlocks.map rbImage).flatten = body
+  have himg : rrImage b = packet 201 b.reportBlocks.length b.padding body := by
+    rw [← hbody]; rfl
+  have hbl : body.length = 4 + 24 * b.reportBlocks.length := by
+    rw [← hbody]; simp only [List.length_append, be32_length, rbImages_len]
+  have hf : Fits b.padding body := ⟨hp, by omega, by omega⟩
+  have hcnt : (b.reportBlocks.length % 32).toUInt8.toNat = b.reportBlocks.length := by
+    rw [toUInt8_toNat_lt (by omega)]; omega
+  obtain ⟨hdr, hhl, hdec⟩ := packet_decomp 201 b.reportBlocks.length b.padding body
+  rw [himg]
+  refine ⟨?_, ?_, ?_, ?_, ?_⟩
+  · simp only [Rr.parse, checkPacket_packet 8 201 _ _ _ (by omega) hf (by omega), R.ok_bind,
+      parseCount_packet, hcnt, packet_length]
+    rw [if_neg (by omega)]; rfl
+  · have e : (slice (packet 201 b.reportBlocks.length b.padding body) 4 8 : R ε Bytes)
+        = .ok (be32 b.ssrc) :=
+      slice_decomp hdr _ _ (by rw [hdec, ← hbody]; simp only [List.append_assoc]; rfl) (by omega) rfl
+    simp only [Rr.ssrc, parseSsrc, e, R.ok_bind, fromBe32_be32]
+  · exact parsePadding_packet _ _ _ _ hf
+  · simp only [Rr.nReports, hCount_packet]
+    congr 2; omega
+  · have e : (slice (packet 201 b.reportBlocks.length b.padding body) 8
+          (8 + b.reportBlocks.length * 24) : R ε Bytes)
+        = .ok (b.reportBlocks.map rbImage).flatten :=
+      slice_decomp (hdr ++ be32 b.ssrc) _ _
+        (by rw [hdec, ← hbody]; simp only [List.append_assoc]; rfl) (by simp; omega)
+        (by rw [rbImages_len]; omega)
+    simp only [Rr.reportBlocks, reportBlocksAt, hCount_packet, R.ok_bind, hcnt, e]
+    rw [chunksExact_flatten 24 (by omega) _ (by simp [rbImage_len])]
+    exact unwrapBlocks_ok _ (by simp [rbImage_len])
 
 /-- C04: BYE — sources in order, the reason bytes (absent when none was set), padding -/
 theorem bye_roundtrip {ε : Type} (b : ByeBuilder) (h : byeRules b = []) :
@@ -48,7 +300,125 @@ theorem bye_roundtrip {ε : Type} (b : ByeBuilder) (h : byeRules b = []) :
     (Bye.reason (byeImage b) : R ε (Option Slice)) =
       .ok (if b.reason = [] then none else some ⟨4 + 4 * b.sources.length + 1, b.reason⟩) ∧
     (Bye.padding (byeImage b) : R ε (Option UInt8)) = .ok (getPaddingOf b.padding) := by
-  sorry
+  have hn : b.sources.length ≤ 31 := by
+    unfold byeRules at h
+    by_cases hh : b.sources.length > 31
+    · simp [hh] at h
+    · omega
+  have hp : b.padding.toNat % 4 = 0 := by
+    unfold byeRules padRule at h
+    by_cases hh : b.padding.toNat % 4 = 0
+    · exact hh
+    · simp [hh] at h
+  have hr : b.reason.length ≤ 255 := by
+    unfold byeRules at h
+    by_cases hh : b.reason.length > 255
+    · simp [hh] at h
+    · omega
+  have hpl := b.padding.toNat_lt
+  have hsl : ((b.sources.map be32).flatten).length = 4 * b.sources.length := be32s_len _
+  have hcnt : (b.sources.length % 32).toUInt8.toNat = b.sources.length := by
+    rw [toUInt8_toNat_lt (by omega)]; omega
+  generalize htail : (if b.reason.isEmpty then []
+      else zfill ((b.reason.length % 256).toUInt8 :: b.reason)) = tail
+  have himg : byeImage b = packet 203 b.sources.length b.padding
+      ((b.sources.map be32).flatten ++ tail) := by
+    rw [← htail]; rfl
+  have htl : tail.length % 4 = 0 ∧ tail.length ≤ 260 := by
+    rw [← htail]
+    split
+    · simp
+    · rw [zfill_length]
+      simp only [List.length_cons]
+      have := pad4_mod (b.reason.length + 1)
+      have := pad4_lt (b.reason.length + 1)
+      omega
+  have hf : Fits b.padding ((b.sources.map be32).flatten ++ tail) :=
+    ⟨hp, by simp only [List.length_append, hsl]; omega, by simp only [List.length_append, hsl]; omega⟩
+  obtain ⟨hdr, hhl, hdec⟩ := packet_decomp 203 b.sources.length b.padding
+    ((b.sources.map be32).flatten ++ tail)
+  rw [himg]
+  refine ⟨?_, ?_, ?_, ?_⟩
+  · simp only [Bye.parse, checkPacket_packet 4 203 _ _ _ (by omega) hf (by omega), R.ok_bind,
+      parseCount_packet, hcnt, packet_length, List.length_append, hsl]
+    rw [if_neg (by omega)]
+    by_cases hlt : 4 + 4 * b.sources.length < 4 + (4 * b.sources.length + tail.length) + b.padding.toNat
+    · rw [if_pos hlt]
+      have hidx : ∃ rl : UInt8, (idx (packet 203 b.sources.length b.padding
+            ((b.sources.map be32).flatten ++ tail)) (4 + 4 * b.sources.length) : R ParseError UInt8)
+            = .ok rl ∧ 1 + rl.toNat ≤ tail.length + b.padding.toNat := by
+        by_cases hre : b.reason = []
+        · have ht : tail = [] := by rw [← htail]; simp [hre]
+          subst ht
+          simp only [List.length_nil] at hlt
+          obtain ⟨t, ht⟩ := trailer_head b.padding (by omega)
+          refine ⟨0, idx_decomp (hdr ++ (b.sources.map be32).flatten) 0 t ?_ ?_, by simp; omega⟩
+          · rw [hdec, ht]; simp
+          · simp [hsl]; omega
+        · have ht : tail = (b.reason.length % 256).toUInt8 ::
+              (b.reason ++ List.replicate (pad4 (b.reason.length + 1) - (b.reason.length + 1)) 0) := by
+            rw [← htail]; simp [hre, zfill]
+          refine ⟨(b.reason.length % 256).toUInt8,
+            idx_decomp (hdr ++ (b.sources.map be32).flatten) _
+              (b.reason ++ List.replicate (pad4 (b.reason.length + 1) - (b.reason.length + 1)) 0
+                ++ trailer b.padding) ?_ ?_, ?_⟩
+          · rw [hdec, ht]; simp only [List.append_assoc, List.cons_append]
+          · simp [hsl]; omega
+          · rw [toUInt8_toNat_of_lt (by omega), ht]
+            have := le_pad4 (b.reason.length + 1)
+            simp; omega
+      obtain ⟨rl, h1, h2⟩ := hidx
+      simp only [h1, R.ok_bind]
+      rw [if_neg (by omega)]; rfl
+    · rw [if_neg hlt]; rfl
+  · have e : (slice (packet 203 b.sources.length b.padding ((b.sources.map be32).flatten ++ tail)) 4
+          (4 + b.sources.length * 4) : R ε Bytes)
+        = .ok (b.sources.map be32).flatten :=
+      slice_decomp hdr _ _
+        (by rw [hdec]; simp only [List.append_assoc]; rfl) (by omega)
+        (by rw [hsl]; omega)
+    simp only [Bye.ssrcs, hCount_packet, R.ok_bind, hcnt, e]
+    rw [chunksExact_flatten 4 (by omega) _ (by simp)]
+    exact mapM_be32 _
+  · simp only [Bye.reason, hCount_packet, R.ok_bind, hcnt, hLength_packet _ _ _ _ hf,
+      parsePadding_packet _ _ _ _ hf, getPaddingOf_getD, packet_length, List.length_append, hsl,
+      R.pure_eq]
+    by_cases hre : b.reason = []
+    · have ht : tail = [] := by rw [← htail]; simp [hre]
+      subst ht
+      rw [if_pos (by simp only [List.length_nil]; omega), if_pos hre]
+    · have ht : tail = (b.reason.length % 256).toUInt8 ::
+          (b.reason ++ List.replicate (pad4 (b.reason.length + 1) - (b.reason.length + 1)) 0) := by
+        rw [← htail]; simp [hre, zfill]
+      have hrl : 0 < b.reason.length := List.length_pos_iff.mpr hre
+      have htl2 : tail.length = pad4 (b.reason.length + 1) := by
+        have := le_pad4 (b.reason.length + 1)
+        rw [ht]; simp; omega
+      have := le_pad4 (b.reason.length + 1)
+      rw [if_neg (by omega), if_neg (by omega), if_neg hre]
+      have e1 : (idx (packet 203 b.sources.length b.padding
+            ((b.sources.map be32).flatten ++ tail)) (b.sources.length * 4 + 4) : R ε UInt8)
+            = .ok (b.reason.length % 256).toUInt8 :=
+        idx_decomp (hdr ++ (b.sources.map be32).flatten) _
+          (b.reason ++ List.replicate (pad4 (b.reason.length + 1) - (b.reason.length + 1)) 0
+            ++ trailer b.padding)
+          (by rw [hdec, ht]; simp only [List.append_assoc, List.cons_append])
+          (by simp [hsl]; omega)
+      simp only [e1, R.ok_bind, toUInt8_toNat_of_lt (show b.reason.length < 256 by omega)]
+      have e2 : (sliceS 0 (packet 203 b.sources.length b.padding
+            ((b.sources.map be32).flatten ++ tail)) (b.sources.length * 4 + 4 + 1)
+            (b.sources.length * 4 + 4 + 1 + b.reason.length) : R ε Slice)
+            = .ok ⟨0 + (b.sources.length * 4 + 4 + 1), b.reason⟩ :=
+        sliceS_decomp (hdr ++ (b.sources.map be32).flatten ++ [(b.reason.length % 256).toUInt8]) _
+          (List.replicate (pad4 (b.reason.length + 1) - (b.reason.length + 1)) 0
+            ++ trailer b.padding)
+          (by rw [hdec, ht]; simp only [List.append_assoc, List.cons_append, List.nil_append])
+          (by simp [hsl]; omega) rfl
+      rw [e2]
+      simp only [R.ok_bind]
+      have e3 : 0 + (b.sources.length * 4 + 4 + 1) = 4 + 4 * b.sources.length + 1 := by omega
+      rw [e3]
+  · exact parsePadding_packet _ _ _ _ hf
 
 /-- C04: APP — SSRC, subtype, name zero-filled to 4 bytes, payload, padding -/
 theorem app_roundtrip {ε : Type} (b : AppBuilder) (h : appRules b = []) :
@@ -58,7 +428,68 @@ theorem app_roundtrip {ε : Type} (b : AppBuilder) (h : appRules b = []) :
     (App.name (appImage b) : R ε Bytes) = .ok (b.name ++ List.replicate (4 - b.name.length) 0) ∧
     (App.data (appImage b) : R ε Slice) = .ok ⟨12, b.data⟩ ∧
     (App.padding (appImage b) : R ε (Option UInt8)) = .ok (getPaddingOf b.padding) := by
-  sorry
+  have hrules : b.subtype.toNat ≤ 31 ∧ b.name.length ≤ 4 ∧ b.data.length % 4 = 0 ∧
+      b.padding.toNat % 4 = 0 ∧ 12 + b.padding.toNat + b.data.length ≤ 262144 := by
+    unfold appRules at h
+    simp only [List.append_eq_nil_iff] at h
+    obtain ⟨⟨⟨⟨h1, h2⟩, h3⟩, h4⟩, h5⟩ := h
+    simp only [h1, h2, h3, h4] at h5
+    unfold padRule at h4
+    unfold sizeRule at h5
+    refine ⟨?_, ?_, ?_, ?_, ?_⟩
+    · by_cases hh : b.subtype.toNat > 31
+      · simp [hh] at h1
+      · omega
+    · by_cases hh : b.name.length > 4
+      · simp [hh] at h2
+      · omega
+    · by_cases hh : b.data.length % 4 = 0
+      · exact hh
+      · simp [hh] at h3
+    · by_cases hh : b.padding.toNat % 4 = 0
+      · exact hh
+      · simp [hh] at h4
+    · by_cases hh : 12 + b.padding.toNat + b.data.length > 262144
+      · simp [hh] at h5
+      · omega
+  obtain ⟨hst, hnl, hdl, hp, hsz⟩ := hrules
+  have hpl := b.padding.toNat_lt
+  generalize hbody : be32 b.ssrc ++ b.name ++ List.replicate (4 - b.name.length) 0 ++ b.data = body
+  have himg : appImage b = packet 204 b.subtype.toNat b.padding body := by
+    rw [← hbody]; rfl
+  have hbl : body.length = 8 + b.data.length := by
+    rw [← hbody]; simp; omega
+  have hf : Fits b.padding body := ⟨hp, by omega, by omega⟩
+  obtain ⟨hdr, hhl, hdec⟩ := packet_decomp 204 b.subtype.toNat b.padding body
+  rw [himg]
+  refine ⟨?_, ?_, ?_, ?_, ?_, ?_⟩
+  · simp only [App.parse, checkPacket_packet 12 204 _ _ _ (by omega) hf (by omega), R.ok_bind,
+      parsePadding_packet _ _ _ _ hf, packet_length]
+    by_cases hp0 : b.padding = 0
+    · simp [getPaddingOf, hp0]
+    · simp only [getPaddingOf, beq_iff_eq, hp0, if_false]
+      rw [if_neg (by omega)]; rfl
+  · have e : (slice (packet 204 b.subtype.toNat b.padding body) 4 8 : R ε Bytes)
+        = .ok (be32 b.ssrc) :=
+      slice_decomp hdr _ _ (by rw [hdec, ← hbody]; simp only [List.append_assoc]; rfl) (by omega) rfl
+    simp only [App.ssrc, parseSsrc, e, R.ok_bind, fromBe32_be32]
+  · rw [hCount_packet]
+    congr 1
+    rw [Nat.mod_eq_of_lt (by omega)]
+    exact toNat_toUInt8 _
+  · exact slice_decomp (hdr ++ be32 b.ssrc) _ _
+      (by rw [hdec, ← hbody]; simp only [List.append_assoc]; rfl) (by simp; omega)
+      (by simp; omega)
+  · simp only [App.data, parsePadding_packet _ _ _ _ hf, R.ok_bind, getPaddingOf_getD,
+      packet_length, usub_ok _ _ (show b.padding.toNat ≤ 4 + body.length + b.padding.toNat by omega)]
+    have e : (sliceS 0 (packet 204 b.subtype.toNat b.padding body) 12
+          (4 + body.length + b.padding.toNat - b.padding.toNat) : R ε Slice)
+          = .ok ⟨0 + 12, b.data⟩ :=
+      sliceS_decomp (hdr ++ be32 b.ssrc ++ b.name ++ List.replicate (4 - b.name.length) 0) _
+        (trailer b.padding)
+        (by rw [hdec, ← hbody]; simp only [List.append_assoc]) (by simp; omega) (by omega)
+    rw [e]
+  · exact parsePadding_packet _ _ _ _ hf
 
 /-- C05 (packet level): sender SSRC, media SSRC, format, padding; and `parse_fci` hands exactly
     the FCI image to the matching FCI parser, padding excluded -/
@@ -72,13 +503,91 @@ theorem fb_roundtrip {ε : Type} (k : FbKind) (f : FciB)
     (Fb.padding img : R ε (Option UInt8)) = .ok (getPaddingOf p) ∧
     (hCount img : R ε UInt8) = .ok (fciFormat f).toUInt8 ∧
     Fb.parseFci k (fciTypeOf f) img = (fciTypeOf f).parse (fciImage f) := by
-  sorry
+  intro img
+  have hrules : p.toNat % 4 = 0 ∧ fciKind f = k ∧ 12 + (fciImage f).length + p.toNat ≤ 262144 := by
+    unfold fbRules at h
+    simp only [List.append_eq_nil_iff] at h
+    obtain ⟨⟨⟨h1, h2⟩, h3⟩, h5⟩ := h
+    simp only [h1, h2, h3] at h5
+    unfold padRule at h1
+    unfold sizeRule at h5
+    refine ⟨?_, ?_, ?_⟩
+    · by_cases hh : p.toNat % 4 = 0
+      · exact hh
+      · simp [hh] at h1
+    · by_cases hh : fciKind f = k
+      · exact hh
+      · simp [hh] at h2
+    · by_cases hh : 12 + (fciImage f).length + p.toNat > 262144
+      · simp [hh] at h5
+      · omega
+  obtain ⟨hp, hk, hsz⟩ := hrules
+  have hpl := p.toNat_lt
+  have hfl := fciImage_len_mod4 f
+  generalize hbody : be32 s ++ be32 m ++ fciImage f = body
+  have himg : img = packet k.pt (fciFormat f) p body := by
+    rw [← hbody]; rfl
+  have hbl : body.length = 8 + (fciImage f).length := by
+    rw [← hbody]; simp; omega
+  have hf : Fits p body := ⟨hp, by omega, by omega⟩
+  obtain ⟨hdr, hhl, hdec⟩ := packet_decomp k.pt (fciFormat f) p body
+  rw [himg]
+  refine ⟨?_, ?_, ?_, ?_, ?_, ?_⟩
+  · simp only [Fb.parse, checkPacket_packet 12 k.pt _ _ _ (by omega) hf (by omega), R.ok_bind,
+      parsePadding_packet _ _ _ _ hf, packet_length]
+    by_cases hp0 : p = 0
+    · simp [getPaddingOf, hp0]
+    · simp only [getPaddingOf, beq_iff_eq, hp0, if_false]
+      rw [if_neg (by omega)]; rfl
+  · have e : (slice (packet k.pt (fciFormat f) p body) 4 8 : R ε Bytes) = .ok (be32 s) :=
+      slice_decomp hdr _ _ (by rw [hdec, ← hbody]; simp only [List.append_assoc]; rfl) (by omega) rfl
+    simp only [Fb.senderSsrc, parseSsrc, e, R.ok_bind, fromBe32_be32]
+  · have e1 : (sliceFrom (packet k.pt (fciFormat f) p body) 4 : R ε Bytes)
+        = .ok (be32 s ++ be32 m ++ (fciImage f ++ trailer p)) :=
+      sliceFrom_decomp hdr _ (by rw [hdec, ← hbody]; simp only [List.append_assoc]) (by omega)
+    have e2 : (slice (be32 s ++ be32 m ++ (fciImage f ++ trailer p)) 4 8 : R ε Bytes) = .ok (be32 m) :=
+      slice_decomp (be32 s) _ _ rfl rfl rfl
+    simp only [Fb.mediaSsrc, parseSsrc, e1, e2, R.ok_bind, fromBe32_be32]
+  · exact parsePadding_packet _ _ _ _ hf
+  · rw [hCount_packet]
+    cases f <;> rfl
+  · have hgate : (FbType.and (fciTypeOf f).packetType k.ty == FbType.none) = false := by
+      rw [← hk]; cases f <;> rfl
+    have hfmt : ((fciFormat f % 32).toUInt8 != (fciTypeOf f).format) = false := by
+      cases f <;> rfl
+    simp only [Fb.parseFci, hgate, parseCount_packet, R.ok_bind, hfmt, parsePadding_packet _ _ _ _ hf,
+      getPaddingOf_getD, packet_length,
+      usub_ok _ _ (show p.toNat ≤ 4 + body.length + p.toNat by omega)]
+    have e : (slice (packet k.pt (fciFormat f) p body) 12
+          (4 + body.length + p.toNat - p.toNat) : R ParseError Bytes) = .ok (fciImage f) :=
+      slice_decomp (hdr ++ be32 s ++ be32 m) _ (trailer p)
+        (by rw [hdec, ← hbody]; simp only [List.append_assoc]) (by simp; omega) (by omega)
+    simp only [e, R.ok_bind, Bool.false_eq_true, if_false]
 
 /-- C19: raw packets from the unknown-packet builder are accepted by the generic parser as
     unknown packets exposing the exact bytes (for every type the crate does not know) -/
 theorem unknown_roundtrip (b : UnknownBuilder) (h : unknownRules b = []) (hk : kindOfType b.type = none) :
     Packet.parse (unknownImage b) = .ok (.unknown (unknownImage b)) := by
-  sorry
+  have hrules : b.padding.toNat % 4 = 0 ∧ b.data.length % 4 = 0 ∧
+      4 + b.data.length + b.padding.toNat ≤ 262144 := by
+    unfold unknownRules at h
+    simp only [List.append_eq_nil_iff] at h
+    obtain ⟨⟨⟨h1, h2⟩, h3⟩, h5⟩ := h
+    simp only [h1, h2, h3] at h5
+    unfold padRule at h2
+    unfold sizeRule at h5
+    refine ⟨?_, ?_, ?_⟩
+    · by_cases hh : b.padding.toNat % 4 = 0
+      · exact hh
+      · simp [hh] at h2
+    · by_cases hh : b.data.length % 4 = 0
+      · exact hh
+      · simp [hh] at h3
+    · by_cases hh : 4 + b.data.length + b.padding.toNat > 262144
+      · simp [hh] at h5
+      · omega
+  obtain ⟨hp, hd, hsz⟩ := hrules
+  exact packet_parse_unknown b.type b.count.toNat b.padding b.data ⟨hp, hd, hsz⟩ hk
 
 /-- C19: the third-party family converts back with every field intact, directly and through the
     generic parser -/
@@ -89,6 +598,44 @@ theorem custom_roundtrip {ε : Type} (b : CustomBuilder) (h : customRules b = []
       = .ok ⟨4, b.body ++ List.replicate (b.min - 4 - b.body.length) 0⟩ ∧
     (Custom.padding (customImage b) : R ε (Option UInt8)) = .ok (getPaddingOf b.padding) ∧
     (kindOfType b.pt = none → Packet.parse (customImage b) = .ok (.unknown (customImage b))) := by
-  sorry
+  have hrules : b.padding.toNat % 4 = 0 ∧ b.body.length % 4 = 0 := by
+    unfold customRules at h
+    simp only [List.append_eq_nil_iff] at h
+    obtain ⟨h1, h2⟩ := h
+    unfold padRule at h1
+    refine ⟨?_, ?_⟩
+    · by_cases hh : b.padding.toNat % 4 = 0
+      · exact hh
+      · simp [hh] at h1
+    · by_cases hh : b.body.length % 4 = 0
+      · exact hh
+      · simp [hh] at h2
+  obtain ⟨hp, hd⟩ := hrules
+  have hpl := b.padding.toNat_lt
+  have hbe : b.bodyEnd = max (4 + b.body.length) b.min := rfl
+  generalize hbody : b.body ++ List.replicate (b.min - 4 - b.body.length) 0 = body
+  have himg : customImage b = packet b.pt 0 b.padding body := by
+    rw [← hbody]; rfl
+  have hbl : 4 + body.length = b.bodyEnd := by
+    rw [← hbody, hbe]; simp; omega
+  have hf : Fits b.padding body := ⟨hp, by omega, by omega⟩
+  obtain ⟨hdr, hhl, hdec⟩ := packet_decomp b.pt 0 b.padding body
+  rw [himg]
+  refine ⟨?_, ?_, ?_, ?_⟩
+  · simp only [Custom.parse, checkPacket_packet b.min b.pt _ _ _ h4 hf (by omega), R.ok_bind,
+      parsePadding_packet _ _ _ _ hf, packet_length]
+    by_cases hp0 : b.padding = 0
+    · simp [getPaddingOf, hp0]
+    · simp only [getPaddingOf, beq_iff_eq, hp0, if_false]
+      rw [if_neg (by omega)]; rfl
+  · simp only [Custom.body, parsePadding_packet _ _ _ _ hf, R.ok_bind, getPaddingOf_getD,
+      packet_length, usub_ok _ _ (show b.padding.toNat ≤ 4 + body.length + b.padding.toNat by omega)]
+    have e : (sliceS 0 (packet b.pt 0 b.padding body) 4
+          (4 + body.length + b.padding.toNat - b.padding.toNat) : R ε Slice)
+          = .ok ⟨0 + 4, body⟩ :=
+      sliceS_decomp hdr _ (trailer b.padding) hdec (by omega) (by omega)
+    rw [e]
+  · exact parsePadding_packet _ _ _ _ hf
+  · exact packet_parse_unknown b.pt 0 b.padding body hf
 
 end Rtcp.Proofs
